@@ -292,6 +292,10 @@ func (m *collection) mergerMain(stackDirtyMid, stackDirtyBase *segmentStack,
 		m.m.Lock()
 		stackDirtyMidPrev := m.stackDirtyMid
 		m.stackDirtyMid = mergedStackDirtyMid
+		// The merged stack holds merge operands already resolved
+		// against the lower level, so a cached snapshot of the stack
+		// it replaces no longer reads the same with SkipLowerLevel.
+		m.invalidateLatestSnapshotLOCKED()
 		m.m.Unlock()
 
 		stackDirtyMidPrev.Close()
